@@ -44,6 +44,10 @@ type C08Scenario struct {
 	QnameMin   int     `json:"qname_min"`
 	Ops        []C08Op `json:"ops"`
 	LatencyMs  int     `json:"latency_ms,omitempty"` // extra latency on the parent's referral path
+	// DeadNS: the child has a second, glueless name server (ns.dead.zzz.) whose own zone is
+	// unreachable: resolving its address outlasts the query timeout (3 s), so requests are
+	// aborted while the delegation is only provisionally recorded.
+	DeadNS bool `json:"dead_ns,omitempty"`
 }
 
 const (
@@ -51,6 +55,8 @@ const (
 	c08New = "192.0.2.77"  // new child servers (gen 2)
 	c08Sub = "192.0.2.88"  // servers of sub.ghost (delegated by the old child)
 	c08TLD = "198.51.100.5"
+	c08Dead = "192.0.2.99" // the old child's second server: its name is glueless and cannot be resolved
+	c08ZZZ  = "192.0.2.98" // server of zzz.: never answers
 )
 
 func init() {
@@ -142,6 +148,7 @@ func genC08(r *kit.RNG) *C08Scenario {
 	if r.Chance(0.2) {
 		sc.LatencyMs = kit.Pick(r, []int{200, 900, 1500})
 	}
+	sc.DeadNS = r.Chance(0.2)
 	return sc
 }
 
@@ -172,6 +179,13 @@ func c08Spec(sc *C08Scenario) *world.Spec {
 				fmt.Sprintf("www.sub.ghost.tld. %d IN TXT \"gen1\"", sc.OldTTL),
 			}},
 	}
+	if sc.DeadNS {
+		sp.Zones[2].NSNames = append(sp.Zones[2].NSNames, "ns.dead.zzz.")
+		sp.Zones[2].Addrs = append(sp.Zones[2].Addrs, c08Dead)
+		sp.Zones = append(sp.Zones, world.ZoneSpec{Name: "zzz.", Signed: sc.Signed, Alg: alg, KeyIdx: 4, Secure: true, NSNames: []string{"ns.zzz."}, Addrs: []string{c08ZZZ}, NSTTL: 86400, DSTTL: 86400,
+			Records: []string{"ns.zzz. 3600 IN A " + c08ZZZ}})
+		sp.Cfg.QueryTimeoutS = 3
+	}
 	sp.Cfg.Prefetch = sc.Prefetch
 	sp.Cfg.QnameMin = sc.QnameMin
 	sp.Cfg.DNSSECOff = !sc.Signed
@@ -200,8 +214,16 @@ func execC08(sc *C08Scenario, tr *kit.Trace, res *kit.Result) {
 	// gen 2 zone object (served on c08New) for the repoint mode
 	var newGhost *authsim.Zone
 	changed := false
+	var netFaults []simnet.Fault
 	if sc.LatencyMs > 0 {
-		w.Net.SetFaults([]simnet.Fault{{Kind: "delay", Addr: c08TLD, Delay: time.Duration(sc.LatencyMs) * time.Millisecond}})
+		netFaults = append(netFaults, simnet.Fault{Kind: "delay", Addr: c08TLD, Delay: time.Duration(sc.LatencyMs) * time.Millisecond})
+	}
+	if sc.DeadNS {
+		netFaults = append(netFaults, simnet.Fault{Kind: "drop", Addr: c08ZZZ}, simnet.Fault{Kind: "drop", Addr: c08Dead})
+		res.Fault("glueless-ns-unresolvable")
+	}
+	if len(netFaults) > 0 {
+		w.Net.SetFaults(netFaults)
 	}
 	// leases granted by delivered referrals: ghost -> old servers
 	var lastOldLeaseEnd time.Duration = -1
@@ -327,7 +349,7 @@ func execC08(sc *C08Scenario, tr *kit.Trace, res *kit.Result) {
 		log := w.Net.Canonical()
 		toOld := 0
 		for _, s := range log[sentBefore:] {
-			if s.To.Addr().String() == c08Old || s.To.Addr().String() == c08Sub {
+			if s.To.Addr().String() == c08Old || s.To.Addr().String() == c08Sub || s.To.Addr().String() == c08Dead {
 				toOld++
 			}
 		}
